@@ -61,6 +61,10 @@ struct State
   bool gaiOffline = false;
   std::map<std::string, long> counts;
   long fired = 0;
+  std::map<int, std::string> captures;
+  std::set<int> captured;
+  int hangWaitMs = 3000;
+  std::map<int, long> capRecv, capSend;
 };
 
 State &S()
@@ -164,6 +168,11 @@ void reset()
   s.counts.clear();
   s.hangExits = true;
   s.hangReturns = false;
+  s.captures.clear();
+  s.captured.clear();
+  s.hangWaitMs = 3000;
+  s.capRecv.clear();
+  s.capSend.clear();
 }
 
 void virtual_time(bool on) { Guard g(S().mtx); S().virt = on; }
@@ -207,6 +216,26 @@ void ledger_track(bool on) { Guard g(S().mtx); S().ledgerOn = on; }
 void gai_offline(bool on) { Guard g(S().mtx); S().gaiOffline = on; }
 long count(std::string const &sys) { Guard g(S().mtx); return S().counts[sys]; }
 long scripted_fired() { Guard g(S().mtx); return S().fired; }
+void capture(int fd, bool on)
+{
+  Guard g(S().mtx);
+  if(on) S().captured.insert(fd); else S().captured.erase(fd);
+}
+std::string take_capture(int fd)
+{
+  Guard g(S().mtx);
+  std::string r;
+  r.swap(S().captures[fd]);
+  return r;
+}
+void cap(std::string const &sys, int fd, long k)
+{
+  Guard g(S().mtx);
+  auto &m = (sys == "send") ? S().capSend : S().capRecv;
+  if(k > 0) m[fd] = k; else m.erase(fd);
+}
+void log_note(std::string const &line) { Guard g(S().mtx); logLine(line); }
+void hang_wait_ms(int ms) { Guard g(S().mtx); S().hangWaitMs = ms; }
 
 } // namespace vos
 
@@ -311,7 +340,9 @@ int poll(struct pollfd *fds, nfds_t n, int timeout)
   }
   // unlimited wait in virtual time with nothing ready right now: give the kernel/peer threads
   // a moment (real), then declare a hang rather than blocking the check forever
-  r = fn(fds, n, 3000);
+  int hw;
+  { Guard g(s.mtx); hw = s.hangWaitMs; }
+  r = fn(fds, n, hw);
   if(r != 0) return finish(r, errno, "waited");
   bool ex;
   { Guard g(s.mtx); ex = s.hangExits; }
@@ -333,6 +364,10 @@ ssize_t send(int fd, void const *buf, size_t len, int flags)
     inject = nextCall("send");
     if(!inject) have = takeDirective("send", fd, d);
     who = labelLocked(fd);
+    if(!inject && !have) {
+      auto c = s.capSend.find(fd);
+      if(c != s.capSend.end()) { have = true; d = Directive{"send", fd, "short", c->second}; }
+    }
   }
   ssize_t r;
   int err = 0;
@@ -348,6 +383,7 @@ ssize_t send(int fd, void const *buf, size_t len, int flags)
   {
     Guard g(s.mtx);
     logLine("send " + who + " len=" + std::to_string(len) + " nosignal=" + ((flags & MSG_NOSIGNAL) ? "1" : "0") + " " + how + " -> " + resStr(r, err));
+    if(r > 0 && s.captured.count(fd)) s.captures[fd].append(static_cast<char const *>(buf), static_cast<size_t>(r));
   }
   if(r < 0) errno = err;
   return r;
@@ -400,6 +436,10 @@ ssize_t recv(int fd, void *buf, size_t len, int flags)
     inject = nextCall("recv");
     if(!inject) have = takeDirective("recv", fd, d);
     who = labelLocked(fd);
+    if(!inject && !have) {
+      auto c = s.capRecv.find(fd);
+      if(c != s.capRecv.end()) { have = true; d = Directive{"recv", fd, "short", c->second}; }
+    }
   }
   ssize_t r;
   int err = 0;
